@@ -58,7 +58,11 @@ type i36Base struct {
 	tags map[string]string // refs/tags/<name> -> object id
 	tl   int               // commit the lightweight tag tl points at
 	name string
+	once sync.Once
 }
+
+// ensure builds the repository on first use (so that small DAGs start at once).
+func (b *i36Base) ensure(c *fw.Ctx) { b.once.Do(func() { i36BuildBase(c, b) }) }
 
 type i36Srv struct {
 	dir  string
@@ -81,7 +85,8 @@ func i36DagName(d fw.DAG, ts int) string {
 	return fmt.Sprintf("dag[%s]ts%d", b.String(), ts)
 }
 
-func i36BuildBase(c *fw.Ctx, idx int, d fw.DAG, ts int) *i36Base {
+func i36BuildBase(c *fw.Ctx, b *i36Base) {
+	d, ts := b.dag, b.ts
 	n := len(d.Parents)
 	ranks := make([]int, n)
 	for i := range ranks {
@@ -110,7 +115,7 @@ func i36BuildBase(c *fw.Ctx, idx int, d fw.DAG, ts int) *i36Base {
 	}
 	g, dir := c.InitRepo("c36base", "sha1", true)
 	ids := g.BuildHistory(specs, false)
-	b := &i36Base{idx: idx, dag: d, ts: ts, dir: dir, ids: ids[:n], x: ids[n : 2*n], u: ids[2*n], tags: map[string]string{}, name: i36DagName(d, ts)}
+	b.dir, b.ids, b.x, b.u, b.tags = dir, ids[:n], ids[n:2*n], ids[2*n], map[string]string{}
 	tree := g.MustRun("rev-parse", ids[0]+"^{tree}").S()
 	blob := g.MustRun("rev-parse", ids[0]+":f0").S()
 	g.MustRun("tag", "-a", "-m", "ta", "ta", ids[0])
@@ -128,7 +133,6 @@ func i36BuildBase(c *fw.Ctx, idx int, d fw.DAG, ts int) *i36Base {
 		b.tl = 1
 	}
 	b.tags["refs/tags/tl"] = ids[b.tl]
-	return b
 }
 
 // tips of the sub-DAG induced by mask.
@@ -224,7 +228,7 @@ func i36MakeServer(c *fw.Ctx, b *i36Base, mask int, withX bool) *i36Srv {
 // requests
 
 type i36Prior struct {
-	Kind string // empty | sub | div | shallow
+	Kind string // empty | sub | div | shallow | shallow2
 	Mask int
 }
 
@@ -521,6 +525,9 @@ func (r *i36Run) makePrior(b *i36Base, newSrv *i36Srv, p i36Prior, spec string, 
 		if p.Kind == "shallow" {
 			args = append(args, "--depth=1")
 		}
+		if p.Kind == "shallow2" {
+			args = append(args, "--depth=2")
+		}
 		args = append(args, "origin")
 		g.In(dir).MustRun(args...)
 	}
@@ -783,7 +790,7 @@ func runC36(c *fw.Ctx) {
 	c.Bound("refspecs", []string{i36Specs[0].Spec, i36Specs[1].Spec, i36Specs[2].Spec})
 	c.Bound("tag_modes", i36TagNames)
 	c.Bound("pairings", []string{i36GG, i36GX, i36XG})
-	c.Bound("priors", "empty; every ancestor-closed subset fetched; diverged extra commit on {all, all-but-last}; shallow depth 1 of {all, all-but-last}")
+	c.Bound("priors", "empty; every ancestor-closed subset fetched; diverged extra commit on {all, all-but-last}; shallow depth 1 of {all, all-but-last}; shallow depth 2 of all (n>=3)")
 	c.SetRule("every DAG with <= max_commits commits x 2 timestamp orders as server (branch on every tip, main, 6 tags incl. tree/blob/nested/tag-only history); every derived prior client state x refspec x tag mode x depth x prune (when something is prunable) x protocol x pairing, plus clone variants; each request is first run git->git (oracle for the shallow file and conformance of the ref model), then on go-git; fsck --connectivity-only + ref model + shallow equality; non-trivial = the request transferred objects or changed refs/shallow; a class is (pairing, protocol, op, prior kind, refspec, tags, depth, prune, #refs changed, |shallow|, outcome)")
 	c.Assume("git 2.39.5 fetch/clone/upload-pack/fsck are the reference; the client-side prior states are produced by real git; a failed request is not a violation (statement covers successful fetches) and is only counted; auto-followed tags (mode following) are admissible iff they carry the server's value")
 
@@ -810,7 +817,9 @@ func runC36(c *fw.Ctx) {
 		}
 	}
 	bases := make([]*i36Base, len(bds))
-	c.ParDo(len(bds), 0, func(i int) { bases[i] = i36BuildBase(c, i, bds[i].d, bds[i].ts) })
+	for i := range bds {
+		bases[i] = &i36Base{idx: i, dag: bds[i].d, ts: bds[i].ts, name: i36DagName(bds[i].d, bds[i].ts)}
+	}
 	c.Bound("servers", len(bases))
 
 	// 2. units = (base, prior, spec) for fetch; (base, clone variant) for clone
@@ -838,6 +847,10 @@ func runC36(c *fw.Ctx) {
 			if m != 0 {
 				priors = append(priors, i36Prior{"div", m}, i36Prior{"shallow", m})
 			}
+		}
+		if n >= 3 {
+			// shallow at depth 2: the client has non-shallow commits above its boundary
+			priors = append(priors, i36Prior{"shallow2", full})
 		}
 		for _, p := range priors {
 			for s := range i36Specs {
@@ -895,6 +908,10 @@ func runC36(c *fw.Ctx) {
 
 	c.ParDo(len(units), 0, func(ui int) {
 		u := units[ui]
+		if r.expired() {
+			return
+		}
+		u.b.ensure(c)
 		n := len(u.b.dag.Parents)
 		full := 1<<n - 1
 		newSrv := getSrv(u.b, full, false)
